@@ -985,11 +985,12 @@ func (d *Driver) FamJSON(perType int) {
 					zeroKey = lowerCamelJSON(fd.Nm)
 				}
 			}
-			for opt := 0; opt < 8; opt++ {
-				ind := indents[(opt+n)%len(indents)]
+			for oi := 0; oi < 4*len(indents); oi++ {
+				opt, ii := oi&3, oi>>2
+				ind := indents[ii]
 				enumnums, emitzero := opt&1 != 0, opt&2 != 0
-				if opt&4 == 0 && n > 0 {
-					continue // the full 2^3 x indent product on the first value, half of it afterwards
+				if n > 0 && (opt+ii+n)%4 != 0 {
+					continue // the full options x indent product on the first value of a type, a rotating quarter of it afterwards
 				}
 				msg := d.Build(ti, am)
 				e := &DEv{C: "json", Dir: "marshal", Fl: specFlavour(ti.Flavour), Key: ti.Key, Enumnums: b2i(enumnums), Emitzero: b2i(emitzero), Indent: len(ind)}
@@ -1126,8 +1127,9 @@ func (d *Driver) FamJSON(perType int) {
 	// plain (no fast-marshal code) well-known and descriptor types through the same option matrix
 	for _, pc := range plainCases() {
 		rt := runtimeOf(pc.fl)
-		for opt := 0; opt < 8; opt++ {
-			ind := indents[opt%len(indents)]
+		for oi := 0; oi < 4*len(indents); oi++ {
+			opt := oi & 3
+			ind := indents[oi>>2]
 			msg := pc.mk()
 			e := &DEv{C: "json", Dir: "marshal", Fl: specFlavour(pc.fl), Key: "plain/" + pc.fl + "/" + pc.name, Enumnums: b2i(opt&1 != 0), Emitzero: b2i(opt&2 != 0), Indent: len(ind)}
 			var out []byte
